@@ -195,7 +195,9 @@ func init() {
 			p.MinMembers = 2 + r.Intn(6)
 			sc := GenHistory(seed, p)
 			sc.Prop = "C09"
-			sc.World.Decorators = true
+			// production decorators in two thirds of the runs; without them in the rest: their
+			// fmt traffic (sync.Pool) orders almost everything in the eyes of the race detector
+			sc.World.Decorators = seed%3 != 0
 			// one big block at the end: every joined connection issues a request at once
 			if r.Bool(0.6) {
 				blk := 100000
@@ -332,7 +334,7 @@ func componentStorm(seed uint64, r *simrt.Rand, p *Profile) *Scenario {
 	sc := &Scenario{Prop: "C09", Family: "history", Seed: seed, Steps: g.steps}
 	sc.World = genWorld(seed, r, p)
 	sc.World.Modules = []string{"vikja", "odal", "dagaz"}
-	sc.World.Decorators = true
+	sc.World.Decorators = seed%3 != 0
 	if sc.World.Policy == "seq" {
 		sc.World.Policy = "rand"
 	}
